@@ -391,6 +391,10 @@ func genPScript(r *rng, pf pProfile, id string, cnt counters, emit func(line, ou
 		case x < pf.wWrite+pf.wReadFrom+pf.wParse+pf.wParseNil+pf.wShrink+pf.wReset+pf.wProbe:
 			lo, hi := e.off, len(e.fed)
 			off := r.pick(lo-1, lo, hi-1, hi, hi+1, r.rangeIn(lo, max(lo, hi)), -1, 0)
+			if r.chance(8) {
+				// far outside the retained range: offsets are int64, the retained range is not
+				off = r.pick(lo, hi, r.rangeIn(lo, max(lo, hi))) + r.pick(1<<32, 2<<32, 1<<31, 1<<40, -(1 << 32))
+			}
 			if r.chance(50) {
 				do(fmt.Sprintf("byteat %d", off))
 			} else {
@@ -625,7 +629,7 @@ func genPBig(r *rng, id string, cnt counters, emit func(line, out string)) *pExe
 			}
 		case x < 98:
 			lo, hi := e.off, len(e.fed)
-			off := r.pick(lo-1, lo, hi-1, hi, hi+1, r.rangeIn(lo, max(lo, hi)), lo+32768, lo+65536)
+			off := r.pick(lo-1, lo, hi-1, hi, hi+1, r.rangeIn(lo, max(lo, hi)), lo+32768, lo+65536, lo+1<<32, hi+1<<32, r.rangeIn(lo, max(lo, hi))+1<<32)
 			if r.chance(50) {
 				do(fmt.Sprintf("byteat %d", off))
 			} else {
